@@ -148,7 +148,17 @@ func (p *idp) token(w http.ResponseWriter, r *http.Request, idpID string) {
 		"contentType":  r.Header.Get("Content-Type"),
 	}
 
-	g := d.arrive("idp", map[string]any{"grant": grant})
+	var owner any
+	if d.parallel {
+		d.big.Lock()
+		if c := d.codeOwner[form.Get("code")]; c != nil {
+			owner = c
+		} else if c := d.rtReader[form.Get("refresh_token")]; c != nil {
+			owner = c
+		}
+		d.big.Unlock()
+	}
+	g := d.arrive("idp", map[string]any{"grant": grant, "check": owner})
 	ev["n"] = g.check.n
 	ev["c"] = g.check.id
 	ev["f"] = g.check.f
